@@ -23,9 +23,9 @@ reject files written, backups taken).
 Below `.pc`: `C05_push_refines_pushSpec_whole` — when no backups are due (`--backup never`, or the default `onfail`
 when everything applied) the two trees hold the same node at every path, `.pc` included, up to inode numbers.  When
 backups are due, what the driver model leaves at `.pc/<patch>/<file>` is described by `RQ/Props/C08Disk.lean`
-(`C08_backup_on_disk_is_prestate`); the comparison with `Spec.putBackups` is NOT made here (it needs, per applied
-patch, that the driver's `Status`es name the same files as the specification's `touched` list — an invariant of the
-file-patch-by-file-patch simulation that no existing theorem exports).
+(`C08_backup_on_disk_is_prestate`); the comparison with `Spec.putBackups` is made in `RQ/Props/C08Refine.lean`
+(`C08_backups_refine_nodes`, and the whole-tree statement for all backup modes `C05_push_refines_pushSpec_all`, under
+the additional hypothesis that the series does not list a patch file twice).
 
 Hypotheses (all but the one on the driver's outcome are decidable on the starting tree):
 
